@@ -194,6 +194,9 @@ def _expand(prog, b, t):
             cb = prog.bodies[x[1]]
             for rt, d, rb in cb.return_values():
                 out.append(_subst_params(rt, x[2:]))
+            for cl in util.closure_bodies(prog, cb.path):
+                for rt, d, rb in cl.return_values():
+                    out.append(rt)
     mir.walk(t, g)
     return ('bundle',) + tuple(out)
 
